@@ -64,9 +64,14 @@ def reparse_if_needed(student_code=None, report=MAIN_REPORT):
         dict: Returns the Cait Report
     """
     cait = report[TOOL_NAME]
+    # Whether each cached piece of code parsed: `success` and `error`
+    # describe the code that is current, not the code that was parsed last
+    outcomes = cait.setdefault('cache_errors', {})
     if student_code is not None:
         if student_code in cait['cache']:
             cait['ast'] = cait['cache'][student_code]
+            cait['error'] = outcomes.get(student_code)
+            cait['success'] = cait['error'] is None
             return cait
         else:
             student_ast = _parse_source(student_code, report=report)
@@ -75,12 +80,16 @@ def reparse_if_needed(student_code=None, report=MAIN_REPORT):
         # Have we already parsed this code?
         if student_code in cait['cache']:
             cait['ast'] = cait['cache'][student_code]
+            cait['error'] = outcomes.get(student_code)
+            cait['success'] = cait['error'] is None
             return cait
         # Try to steal parse from Source module, if available
         if report[SOURCE_TOOL_NAME]['success']:
             student_ast = report[SOURCE_TOOL_NAME]['ast']
+            cait['success'], cait['error'] = True, None
         else:
             student_ast = _parse_source(student_code, report=report)
+    outcomes[student_code] = cait['error']
     cait['ast'] = cait['cache'][student_code] = CaitNode(student_ast, report=report)
     return cait
 
@@ -123,6 +132,7 @@ def expire_cait_cache(report=MAIN_REPORT):
     """
     report['cait']['ast'] = None
     report['cait']['cache'] = {}
+    report['cait']['cache_errors'] = {}
 
 
 def def_use_error(node, report=MAIN_REPORT):
@@ -304,7 +314,8 @@ def reset(report=MAIN_REPORT):
         'success': True,
         'error': None,
         'ast': None,
-        'cache': {}
+        'cache': {},
+        'cache_errors': {}
     }
     return report[TOOL_NAME]
 
